@@ -24,6 +24,10 @@ CHECKS["C18"] = ("exploration", "storage-fault enumeration through the database 
   "a scenario (import x2, new addresses, 9 blocks incl. 2 reorgs, create, remove with blocks arriving, flush blocks) is recorded once; per step group every call index (quick: all indexes of small steps, a seeded sample with both ends of large ones; thorough: all) is failed once and as a burst of consecutive failures; an attempt of the operation during which storage works must succeed, the NewAddress sequence, wallet list, every API observation of the surviving wallet and the ledger must equal the twin's; no follower goroutine may die",
   "one fault burst per run (1 failing call, or 2/3/6 consecutive failing calls); bucket lookups have no error return and are not faulted; rolled-back transactions are always resolved on the new branch (a block the wallet skipped and the chain abandoned is not a lost block)", "§5 C18")
 
+CHECKS["C20"] = ("exploration", "schedule control at 11 yield points of follower and worker (build tag verif): every (point, occurrence) of four scenarios is used once as the place where a goroutine is parked while Stop is issued (released after quit is closed / 3 ms later) or while all blocks are queued (progress variant); goroutine-dump deadlock classifier, in-process database re-open, restart convergence; random stops with delays and GOMAXPROCS 1/2/4/16, a sixth under the Go race detector",
+  "Stop must return for every enumerated placement and random stop; a watchdog expiry counts only with two identical goroutine dumps in which every wallet goroutine is blocked in a channel/lock/wait-group operation; the database directory must be open-able again; after restart (or without a stop) every tip is applied, the import turns ready, the removed wallet disappears",
+  "goroutines are parked only at hook points (outside database transactions); API server and chain notifications are stopped before WalletManager.Stop as in loader.go; bounded progress (40-60 s) stands in for 'eventually'", "§5 C20")
+
 CHECKS["C11"] = ("exploration", "reference-model monitor (nested in-memory map with pending overlay) after every operation + porcupine linearizability check of concurrent transaction histories + Go race detector on a tenth of them",
   "sequential: every Get/GetByPrefix/BucketNames/iterator/Seek result and every error return of the real ldb driver on on-disk LevelDB is compared with the model across commit, rollback, error-return and close/reopen; concurrent: recorded call/return histories of whole transactions must be linearizable w.r.t. a sequential map",
   "trusts the 60-line map model and porcupine; iterators checked on committed data only; bucket re-creation error code not demanded", "§5 C11")
